@@ -898,7 +898,8 @@ def ml_first(eng, st, fr, t, name, rname, args):
         return NotImplemented
     if not l.cells:
         return mk_option(None)
-    return mk_option(RefV(l.cells[-1] if name.endswith("last") else l.cells[0]))
+    is_last = name.split("::")[-1].startswith("last")
+    return mk_option(RefV(l.cells[-1] if is_last else l.cells[0], (), name.endswith("_mut")))
 
 
 def ml_get(eng, st, fr, t, name, rname, args):
@@ -914,7 +915,10 @@ LIST_MODELS = {
     "core::slice::split_last": ml_split_first,
     "core::slice::first": ml_first,
     "core::slice::last": ml_first,
+    "core::slice::first_mut": ml_first,
+    "core::slice::last_mut": ml_first,
     "core::slice::get": ml_get,
+    "core::slice::get_mut": ml_get,
     "core::slice::iter": ml_iter,
     "core::iter::IntoIterator::into_iter": ml_iter,
     "core::slice::len": ml_len,
